@@ -37,11 +37,42 @@ pub fn servers() -> Vec<Srv> {
 /// class and, if the response is not what some allowed reading of the request
 /// demands, the violation key and details.
 pub fn evaluate(srv: &Srv, req: &[u8], tp: Tp) -> (String, Option<(String, Value)>) {
+    evaluate_on(&srv.server, &srv.keys, req, tp)
+}
+
+/// A server of its own per worker, with the key table, on which every UDP
+/// request is sent twice under a limit of one response per second and stream:
+/// the second response is rate limited (slip 1: truncated, records removed)
+/// where the limiter applies, and must still carry the RCODE the request
+/// demands.
+pub struct Limited {
+    server: Server<Cat>,
+    keys: Vec<KeyEntry>,
+}
+
+pub fn limited() -> Limited {
+    let cfg = ServerCfg { name: "keys-limited", edns_size: 1232, tsig: true, rrl: None };
+    Limited { server: fixtures::make_server(qd::catalog_of(vec![fixtures::std_zone()]), cfg), keys: model::fixture_keys() }
+}
+
+pub fn evaluate_limited(lim: &mut Limited, req: &[u8]) -> (String, Option<(String, Value)>) {
     quandary::server::verif_hooks::set_tsig_unix_time(Some(TSIG_TIME));
-    let cfg = ScanCfg { keys: &srv.keys, now: TSIG_TIME };
+    quandary::server::verif_hooks::set_rrl_elapsed(Some(std::time::Duration::from_secs(5)));
+    let mut p = quandary::server::RrlParams::new(1, 1, 1, 1).expect("rrl params");
+    p.set_slip(1);
+    p.set_size(7).expect("rrl size");
+    lim.server.set_rrl_params(Some(p)); // a fresh table
+    let _ = qd::handle(&lim.server, req, qd::localhost(), Tp::Udp);
+    let (class, v) = evaluate_on(&lim.server, &lim.keys, req, Tp::Udp);
+    (format!("second-under-rate-limit: {class}"), v)
+}
+
+fn evaluate_on(server: &Server<Cat>, keys: &[KeyEntry], req: &[u8], tp: Tp) -> (String, Option<(String, Value)>) {
+    quandary::server::verif_hooks::set_tsig_unix_time(Some(TSIG_TIME));
+    let cfg = ScanCfg { keys, now: TSIG_TIME };
     let scans = model::scan_all(req, &cfg);
     let first = &scans[0];
-    let resp = match qd::handle(&srv.server, req, qd::localhost(), tp) {
+    let resp = match qd::handle(server, req, qd::localhost(), tp) {
         Ok(r) => r,
         Err(p) => return (format!("{} -> panic", first.why), Some((panic_key(&p), json!({"panic": p})))),
     };
@@ -390,14 +421,19 @@ pub fn run(ctx: Ctx) -> ! {
         let req = unhex(case["request"].as_str().unwrap_or(""));
         let srv = srvs.iter().find(|s| s.name == case["server"].as_str().unwrap_or("keys")).unwrap_or(&srvs[0]);
         let tp = Tp::from_name(case["tp"].as_str().unwrap_or("udp"));
-        let (class, v) = evaluate(srv, &req, tp);
+        let (class, v) = if case["server"].as_str() == Some("keys-limited") {
+            let mut lim = limited();
+            evaluate_limited(&mut lim, &req)
+        } else {
+            evaluate(srv, &req, tp)
+        };
         eprintln!("replay: {class}");
         let mut l = ctx.local();
         l.tick();
         l.outcome(&class, || case.clone());
         if let Some((key, detail)) = v {
             eprintln!("replay: VIOLATED {key}: {detail}");
-            l.violation(&key, json!({"request": hex(&req), "server": srv.name, "tp": tp.name(), "detail": detail}));
+            l.violation(&key, json!({"request": hex(&req), "server": case["server"].as_str().unwrap_or(srv.name), "tp": tp.name(), "detail": detail}));
         } else {
             eprintln!("replay: holds");
         }
@@ -421,11 +457,29 @@ pub fn run(ctx: Ctx) -> ! {
     ctx.par_for_each(&items, |l: &mut Local, &(ti, fam)| {
         let tm = &tmpls[ti];
         let mut n_mut = 0u64;
+        let mut lim = limited();
         for_each_mutant(tm, fam, thorough, &mut |desc, m| {
             n_mut += 1;
             for &op in OPCODES {
                 for junk in [false, true] {
                     let req = with_post(&m, op, junk);
+                    {
+                        l.tick();
+                        let (class, v) = evaluate_limited(&mut lim, &req);
+                        let full = || {
+                            json!({
+                                "request": hex(&req), "server": "keys-limited", "tp": "udp",
+                                "template": tm.name, "mutation": desc(),
+                                "opcode_override": op, "junk_octet_appended": junk,
+                            })
+                        };
+                        l.outcome(&class, full);
+                        if let Some((key, detail)) = v {
+                            let mut c = full();
+                            c["detail"] = detail;
+                            l.violation(&format!("rate-limited:{key}"), c);
+                        }
+                    }
                     for srv in &srvs {
                         for tp in [Tp::Udp, Tp::Tcp] {
                             l.tick();
@@ -453,12 +507,12 @@ pub fn run(ctx: Ctx) -> ! {
     ctx.set_extra("templates", json!(tmpls.len()));
     ctx.set_extra("families", json!(FAMILIES));
     ctx.set_extra("post_variants", json!("opcode in {kept, 2, 5, 15} x {no junk, 1 appended zero octet}"));
-    ctx.set_extra("servers", json!(["keys (TSIG key table of fixtures)", "nokeys"]));
+    ctx.set_extra("servers", json!(["keys (TSIG key table of fixtures)", "nokeys", "keys-limited (rate 1, window 1, slip 1; second of two identical UDP requests)"]));
     ctx.assume("the request templates of qvlib::templates are well formed (cross-checked: the identity family must scan as problem-free or as the TSIG/EDNS error the template was built for)");
     ctx.assume("qvlib::wire decoder and qvlib::reftsig HMAC (self-tested against RFC vectors at start-up) are correct");
     ctx.finish(
         "exploration",
-        "every template x every member of 10 mutation families (truncation at every length, 7 appended suffixes, all count vectors within +-1 and forced values, every single-bit flip, every octet set to 9 significant values (quick) / all 256 values (thorough), OPT/TSIG/ordinary record inserted at every slot and section, own OPT/TSIG moved to every slot, TSIG class/TTL values, question dropped) x 4 opcodes x {no junk, junk} x 2 servers x 2 transports; oracle = independent in-order request scanner (first problem wins)",
+        "every template x every member of 10 mutation families (truncation at every length, 7 appended suffixes, all count vectors within +-1 and forced values, every single-bit flip, every octet set to 9 significant values (quick) / all 256 values (thorough), OPT/TSIG/ordinary record inserted at every slot and section, own OPT/TSIG moved to every slot, TSIG class/TTL values, question dropped) x 4 opcodes x {no junk, junk} x 2 servers x 2 transports, plus every request sent twice over UDP to a server limited to one response per second and stream (slip 1), the second response judged like any other; oracle = independent in-order request scanner (first problem wins)",
         true,
     )
 }
